@@ -4,8 +4,9 @@
 
   The monitor replays a scenario round by round on `Own.State`. The operations
   of a round were issued concurrently on the real core, so every interleaving of
-  their atomic parts (a creation is begin · insert · [claim] · settle, everything
-  else is one step) is tried; a round is explained if some interleaving yields
+  their atomic parts (a creation is begin · insert · [claim] · settle, a lost
+  executor / agent is the loss followed by the reactions of the watchers,
+  everything else is one step) is tried; a round is explained if some interleaving yields
   the observed results and a model view that prints exactly like the observed
   snapshot. Outcomes the code leaves to the scheduler (which siblings of a failed
   launch had reported TASK_RUNNING, whether a teardown lost the rendezvous race)
@@ -41,6 +42,7 @@ structure EnvIn where
 inductive OpIn where
   | new (k : Nat) | ctl (k : Nat) (ev : CEv) | destroy (k : Nat) (f a kp : Bool)
   | cleanup | killenv (k : Nat) | rel (k : Nat)
+  | xfail (k j : Nat) (upd : Bool) | afail (k j : Nat) (upd : Bool)
   deriving Repr, Inhabited
 
 structure Scenario where
@@ -75,6 +77,8 @@ def parseOp : SExp → Option OpIn
   | .list [.atom "cleanup"] => some .cleanup
   | .list [.atom "killenv", k] => do pure (.killenv (← k.nat?))
   | .list [.atom "rel", k] => do pure (.rel (← k.nat?))
+  | .list [.atom "xfail", k, j, u] => do pure (.xfail (← k.nat?) (← j.nat?) (← u.bool?))
+  | .list [.atom "afail", k, j, u] => do pure (.afail (← k.nat?) (← j.nat?) (← u.bool?))
   | _ => none
 
 def parseScenario (s : String) : Option Scenario :=
@@ -104,6 +108,7 @@ def validHosts : List Nat := [1, 2, 3, 4]
 
 inductive ResObs where
   | ok | okState (s : String) | okN (n : Nat) | err (c : String) | hang | crash
+  | lost (ks : List Nat)        -- xfail / afail: the environments whose watcher was seen to react
   deriving DecidableEq, Repr, Inhabited
 
 structure RoundObs where
@@ -118,6 +123,7 @@ def parseRes : SExp → Option ResObs
   | .list [.atom "err", .atom c] => some (.err c)
   | .list [.atom "hang"] => some .hang
   | .list [.atom "crash"] => some .crash
+  | .list (.atom "lost" :: ks) => (ks.mapM? SExp.nat?).map .lost
   | _ => none
 
 def parseRound : SExp → Option RoundObs
@@ -263,7 +269,19 @@ def hookFailIds (sc : Scenario) (s : State) (k : Nat) : List TaskId :=
   | some e => (e.roles.zipIdx).filterMap (fun p =>
       if p.1.kind = .hook && p.1.hook == "fail" then taskIdOf s k p.2 else none)
 
-def settleOracle (sc : Scenario) (k : Nat) (ro : RoundObs) (late : Bool) : SettleOracle :=
+/-- Loss operations issued in the round of the creation of `k`: they hit while the creation is
+    inside CONFIGURE (the harness holds it there): host and kind, in the order of the operations. -/
+def lostInCreation (sc : Scenario) (ops : List OpIn) (k : Nat) : List (Host × Bool) :=
+  let hostOf (j : Nat) : Option Host := ((sc.envs[k]?).bind (fun e => e.roles[j]?)).map (·.host)
+  ops.filterMap (fun
+    | .xfail k' j _ => if k' = k then (hostOf j).map (fun h => (h, false)) else none
+    | .afail k' j _ => if k' = k then (hostOf j).map (fun h => (h, true)) else none
+    | _ => none)
+
+def createdHere (ops : List OpIn) (k : Nat) : Bool :=
+  ops.any (fun | .new k' => k' == k | _ => false)
+
+def settleOracle (sc : Scenario) (k : Nat) (ro : RoundObs) (late : Bool) (lost : List (Host × Bool) := []) : SettleOracle :=
   match sc.envs[k]? with
   | none => {}
   | some e =>
@@ -278,7 +296,7 @@ def settleOracle (sc : Scenario) (k : Nat) (ro : RoundObs) (late : Bool) : Settl
         | "stay" => some (p.2, false)
         | "err" => some (p.2, true)
         | _ => none),
-      late := late }
+      late := late, lost := lost }
 
 abbrev SubStep := State → State × Res
 
@@ -288,6 +306,10 @@ structure Thread where
   res : Option Res := none
 
 def liftStep (st : State → Step) : SubStep := fun s => step s (st s)
+
+/-- The task a loss operation names: the latest launch for role `j` of environment `k` that has not ended. -/
+def victim (s : State) (k j : Nat) : Option MTask :=
+  (s.master.filter (fun m => decide (m.label = k) && decide (m.role = j) && decide (m.mesos ≠ .terminal))).getLast?
 
 /-- Does the round release tasks (a destroy, or a creation scripted to fail after deployment)?
     Only then does it matter where a creation's pre-deployment Cleanup falls. -/
@@ -313,7 +335,7 @@ def threadOf (sc : Scenario) (ops : List OpIn) (ro : RoundObs) (idx : Nat) (op :
                 else [fun s => let a := step s (.createBegin k spec); ((step a.1 (.createCleanup k)).1, a.2)])
         ++ [liftStep (fun _ => .createInsert k)]
         ++ (if sc.reuse then [liftStep (fun _ => .createClaim k)] else [])
-        ++ [liftStep (fun _ => .createSettle k (settleOracle sc k ro hang))] }
+        ++ [liftStep (fun _ => .createSettle k (settleOracle sc k ro hang (lostInCreation sc ops k)))] }
   | .ctl k ev =>
     -- concurrent START_ACTIVITY requests race for the run number (compare-and-swap): the loser's transition is cancelled
     -- (seen afterwards: the environment is in ERROR while none of its tasks left CONFIGURED)
@@ -338,6 +360,22 @@ def threadOf (sc : Scenario) (ops : List OpIn) (ro : RoundObs) (idx : Nat) (op :
       let r := step s (.killIds (if ids = [] then [0] else ids))
       (r.1, if r.2 = .ok then .okKilled (r.1.killLog.length - s.killLog.length) else r.2)] }
   | .rel k => { idx := idx, steps := [liftStep (fun _ => .mesosStart k)] }
+  | .xfail k j _ => if createdHere ops k then { idx := idx, steps := [fun s => (s, .ok)] } else lossThread false k j
+  | .afail k j _ => if createdHere ops k then { idx := idx, steps := [fun s => (s, .ok)] } else lossThread true k j
+where
+  /-- The executor / agent of the host the victim runs on is lost (nothing happens if there is no
+      victim); then the watchers that were seen to react do (which ones are still alive is the
+      core's business: read off the observation); then the operation returns. -/
+  lossThread (agent : Bool) (k j : Nat) : Thread :=
+    let fired := match ro.results.getD idx .ok with
+      | .lost ks => ks
+      | _ => []
+    { idx := idx,
+      steps := [fun s => match victim s k j with
+                  | none => (s, .noop)
+                  | some m => ((step s (if agent then .agentLost m.host else .execLost m.host)).1, .noop)]
+        ++ fired.map (fun k' => fun s => ((step s (.watchError k' (trFails sc s k' "STOP"))).1, .noop))
+        ++ [fun s => (s, .ok)] }
 
 /-- `conc`: the round had several requests. DestroyEnvironment releases and kills in two
     steps, so a concurrent cleanup may be the one that sends the KILLs: the number a cleanup
@@ -355,6 +393,7 @@ def resMatches (conc : Bool) (o : ResObs) (m : Res) : Bool :=
   | .err "failed", .err => true
   | .err "failed", .notfound => true   -- the request found the environment and then lost the race with its deletion
   | .hang, .hang => true
+  | .lost _, .ok => true       -- the reactions listed were replayed as steps
   | .crash, _ => true          -- the request died with the process, whatever it had achieved
   | _, _ => false
 
@@ -430,7 +469,8 @@ def replay (sc : Scenario) (obs : List RoundObs) : Replay :=
 def envsOfOps (ops : List OpIn) : List Nat :=
   ops.filterMap (fun
     | .new k => some k | .ctl k _ => some k | .destroy k _ _ _ => some k
-    | .killenv k => some k | .rel k => some k | .cleanup => none)
+    | .killenv k => some k | .rel k => some k | .cleanup => none
+    | .xfail k _ _ => some k | .afail k _ _ => some k)
 
 /-- Environments a call on which was seen to hang in this round. -/
 def hungOf (ops : List OpIn) (ro : RoundObs) : List Nat :=
